@@ -107,6 +107,9 @@ def main():
             pf = os.path.join(sd, "patch.diff")
             if os.path.exists(pf):
                 muts.append({"name": "seeded/" + os.path.basename(sd), "patch": pf, "expect": pid + "."})
+        # behaviour-preserving refactorings (independently produced): every check must stay silent on them
+        for rf in sorted(glob.glob(os.path.join(VERIF, "refactors", "*.diff"))):
+            muts.append({"name": "refactor/" + os.path.basename(rf)[:-5], "patch": rf, "breaks": False})
         if only:
             muts = [m for m in muts if only in m["name"]]
         with ThreadPoolExecutor(max_workers=jobs) as ex:
